@@ -11,6 +11,7 @@ from typing import Union
 from liquid.filter import array_filter
 from liquid.filter import sequence_filter
 from liquid.limits import to_int
+from liquid.undefined import is_undefined
 
 
 @array_filter
@@ -19,6 +20,9 @@ def index(left: Sequence[object], obj: object) -> object:
 
     `None` is returned if `obj` is not in `left`.
     """
+    if is_undefined(obj):
+        # Every undefined type looks for nil, not just those that equal `None`.
+        obj = None
     try:
         return left.index(obj)
     except ValueError:
